@@ -1,1 +1,932 @@
-fn main() {}
+//! C10 harness: the real `CardanoDatabaseClient::{download_and_verify_digests, verify_cardano_database}`
+//! on generated databases, tampered directories and tampered digest lists.
+//!  K: verdict and reported lists vs the Lean model `Db.verify` / `Db.verifyDigests`.
+//!  S (evaluated here, on the real file system and the real verdict): accepted => every name of the
+//!     range is present (unless gaps are allowed) and what can be read under that name hashes to the
+//!     digest the honest (signed) list assigns to that very name, and no foreign immutable file of the
+//!     range exists; rejected => every offending name is in the reported lists.
+use hclient::{name_ok, sha256_hex, Ids, Scratch};
+use hutil::{Args, Rng, Sink};
+use mithril_cardano_node_internal_database::digesters::{CardanoImmutableDigester, ImmutableDigester};
+use mithril_cardano_node_internal_database::test::DummyCardanoDbBuilder;
+use mithril_client::cardano_database_client::{
+    CardanoDatabaseVerificationError, ImmutableFileRange, VerifiedDigests,
+};
+use mithril_client::{CardanoDatabaseSnapshot, ClientBuilder, MithrilCertificate};
+use mithril_common::crypto_helper::{MKTree, MKTreeStoreInMemory};
+use mithril_common::entities::{
+    CardanoDbBeacon, DigestLocation, Epoch, ProtocolMessage, ProtocolMessagePartKey,
+};
+use mithril_common::messages::{CardanoDatabaseDigestListItemMessage, DigestsMessagePart};
+use mithril_common::test::double::{fake_keys, Dummy};
+use std::collections::{BTreeMap, BTreeSet};
+use std::path::{Path, PathBuf};
+
+const EXTS: [&str; 3] = ["chunk", "primary", "secondary"];
+
+fn trio_name(n: u64, e: usize) -> String {
+    format!("{:05}.{}", n, EXTS[e])
+}
+
+#[derive(Clone, Debug)]
+enum R {
+    Full,
+    From(u64),
+    Range(u64, u64),
+    UpTo(u64),
+}
+
+impl R {
+    fn real(&self) -> ImmutableFileRange {
+        match self {
+            R::Full => ImmutableFileRange::Full,
+            R::From(a) => ImmutableFileRange::From(*a),
+            R::Range(a, b) => ImmutableFileRange::Range(*a, *b),
+            R::UpTo(b) => ImmutableFileRange::UpTo(*b),
+        }
+    }
+    fn show(&self) -> String {
+        match self {
+            R::Full => "(full)".into(),
+            R::From(a) => format!("(from,{})", a),
+            R::Range(a, b) => format!("(range,{},{})", a, b),
+            R::UpTo(b) => format!("(upto,{})", b),
+        }
+    }
+    /// the range as the PROPERTY reads it (independent of the code): None = not a range of this database
+    fn bounds(&self, last: u64) -> Option<(u64, u64)> {
+        match *self {
+            R::Full => Some((0, last)),
+            R::From(a) if a <= last => Some((a, last)),
+            R::Range(a, b) if a <= b && b <= last => Some((a, b)),
+            R::UpTo(b) if b <= last => Some((0, b)),
+            _ => None,
+        }
+    }
+}
+
+#[derive(Clone, Debug)]
+enum Tamper {
+    Flip(String),
+    Truncate(String),
+    Extend(String),
+    Empty(String),
+    Delete(String),
+    Swap(String, String),
+    CopyOver(String, String), // content of .0 written over .1
+    Extra(String, Option<String>), // new file; content random or a copy of the named file
+    DirAt(String),            // the name becomes a directory holding one file
+    LinkAt(String, String),   // the name becomes a symbolic link with this target text
+    NoImmutableDir,
+}
+
+struct Db {
+    case_dir: PathBuf,
+    db_dir: PathBuf,
+    imm: PathBuf,
+    top: u64,
+    beacon: u64,
+    /// honest name -> digest for every file written (before tampering)
+    honest_all: BTreeMap<String, String>,
+}
+
+fn random_content(rng: &mut Rng, pool: &mut Vec<Vec<u8>>) -> Vec<u8> {
+    if !pool.is_empty() && rng.chance(1, 12) {
+        return rng.pick(pool).clone(); // two names with the same content
+    }
+    let size = match rng.below(10) {
+        0 => 0,
+        1 => 1,
+        2..=4 => rng.range(2, 64),
+        5..=7 => rng.range(65, 1024),
+        _ => rng.range(1025, 4096),
+    } as usize;
+    let c = rng.bytes(size);
+    pool.push(c.clone());
+    c
+}
+
+fn build_db(rng: &mut Rng, scratch: &Scratch, idx: usize, trios: u64, beacon: u64, extra_trio: bool) -> Db {
+    let case_dir = scratch.case_dir(idx);
+    let name = format!("c10_{}_{}", std::process::id(), idx);
+    let mut b = DummyCardanoDbBuilder::new(&name);
+    let numbers: Vec<u64> = (0..trios).collect();
+    b.with_immutables(&numbers);
+    if extra_trio {
+        b.append_immutable_trio();
+    }
+    let db = b.build();
+    let db_dir = db.get_dir().to_path_buf();
+    let imm = db_dir.join("immutable");
+    let mut honest_all = BTreeMap::new();
+    let mut pool = vec![];
+    let top = if extra_trio { trios } else { trios - 1 };
+    for n in 0..=top {
+        for e in 0..3 {
+            let nm = trio_name(n, e);
+            let c = random_content(rng, &mut pool);
+            std::fs::write(imm.join(&nm), &c).unwrap();
+            honest_all.insert(nm, sha256_hex(&c));
+        }
+    }
+    Db { case_dir, db_dir, imm, top, beacon, honest_all }
+}
+
+impl Db {
+    fn honest_certified(&self) -> BTreeMap<String, String> {
+        self.honest_all
+            .iter()
+            .filter(|(n, _)| n[..5].parse::<u64>().unwrap() <= self.beacon)
+            .map(|(a, b)| (a.clone(), b.clone()))
+            .collect()
+    }
+    fn cleanup(&self) {
+        let _ = hclient::remove_all(&self.db_dir);
+        let _ = hclient::remove_all(&self.case_dir);
+    }
+}
+
+fn apply(t: &Tamper, db: &Db, rng: &mut Rng) {
+    let p = |n: &String| db.imm.join(n);
+    match t {
+        Tamper::Flip(n) => {
+            if let Ok(mut c) = std::fs::read(p(n)) {
+                if !c.is_empty() {
+                    let i = rng.below(c.len() as u64) as usize;
+                    c[i] ^= 1 << rng.below(8);
+                    std::fs::write(p(n), c).unwrap();
+                }
+            }
+        }
+        Tamper::Truncate(n) => {
+            if let Ok(c) = std::fs::read(p(n)) {
+                if !c.is_empty() {
+                    let k = rng.below(c.len() as u64) as usize;
+                    std::fs::write(p(n), &c[..k]).unwrap();
+                }
+            }
+        }
+        Tamper::Extend(n) => {
+            if let Ok(mut c) = std::fs::read(p(n)) {
+                c.push(rng.u64() as u8);
+                std::fs::write(p(n), c).unwrap();
+            }
+        }
+        Tamper::Empty(n) => {
+            if p(n).is_file() {
+                std::fs::write(p(n), b"").unwrap();
+            }
+        }
+        Tamper::Delete(n) => {
+            let _ = std::fs::remove_file(p(n));
+        }
+        Tamper::Swap(a, b) => {
+            if let (Ok(ca), Ok(cb)) = (std::fs::read(p(a)), std::fs::read(p(b))) {
+                std::fs::write(p(a), cb).unwrap();
+                std::fs::write(p(b), ca).unwrap();
+            }
+        }
+        Tamper::CopyOver(a, b) => {
+            if let Ok(ca) = std::fs::read(p(a)) {
+                if p(b).is_file() {
+                    std::fs::write(p(b), ca).unwrap();
+                }
+            }
+        }
+        Tamper::Extra(n, src) => {
+            if std::fs::symlink_metadata(p(n)).is_err() && db.imm.is_dir() {
+                let c = match src {
+                    Some(s) => std::fs::read(p(s)).unwrap_or_default(),
+                    None => {
+                        let k = rng.range(0, 200) as usize;
+                        rng.bytes(k)
+                    }
+                };
+                std::fs::write(p(n), c).unwrap();
+            }
+        }
+        Tamper::DirAt(n) => {
+            if db.imm.is_dir() {
+                let _ = std::fs::remove_file(p(n));
+                if std::fs::create_dir(p(n)).is_ok() {
+                    std::fs::write(p(n).join("inner.chunk"), b"nested").unwrap();
+                }
+            }
+        }
+        Tamper::LinkAt(n, target) => {
+            if db.imm.is_dir() {
+                let _ = std::fs::remove_file(p(n));
+                let _ = std::os::unix::fs::symlink(target, p(n));
+            }
+        }
+        Tamper::NoImmutableDir => {
+            let _ = std::fs::remove_dir_all(&db.imm);
+        }
+    }
+}
+
+/// what is in `immutable/` now, in protocol form
+fn observe_dir(imm: &Path, ids: &mut Ids) -> String {
+    if !imm.is_dir() {
+        return "none".into();
+    }
+    let mut out = vec![];
+    let mut names: Vec<_> = std::fs::read_dir(imm).unwrap().flatten().map(|e| e.file_name().to_string_lossy().to_string()).collect();
+    names.sort();
+    for n in names {
+        assert!(name_ok(&n));
+        let p = imm.join(&n);
+        let md = std::fs::symlink_metadata(&p).unwrap();
+        if md.file_type().is_symlink() {
+            out.push(format!("(@{},l,{})", n, if p.exists() { 1 } else { 0 }));
+        } else if md.is_dir() {
+            out.push(format!("(@{},d)", n));
+        } else {
+            let d = sha256_hex(&std::fs::read(&p).unwrap());
+            out.push(format!("(@{},f,{})", n, ids.id(&d)));
+        }
+    }
+    format!("[{}]", out.join(","))
+}
+
+fn show_names(v: &[String]) -> String {
+    format!("[{}]", v.iter().map(|n| format!("@{}", n)).collect::<Vec<_>>().join(","))
+}
+
+enum Verdict {
+    Accepted,
+    Rejected { missing: Vec<String>, tampered: Vec<String>, nonver: Vec<String> },
+    Err(&'static str),
+}
+
+impl Verdict {
+    fn show(&self) -> String {
+        match self {
+            Verdict::Accepted => "accepted".into(),
+            Verdict::Rejected { missing, tampered, nonver } => format!(
+                "rejected missing={} tampered={} nonver={}",
+                show_names(missing),
+                show_names(tampered),
+                show_names(nonver)
+            ),
+            Verdict::Err(k) => format!("err {}", k),
+        }
+    }
+}
+
+#[derive(Debug, PartialEq, Clone, Copy)]
+enum Off {
+    Missing,
+    Tampered,      // regular file under a range name whose content is not the certified one
+    Foreign,       // regular immutable file of the range under a name that is not a range name
+    NonRegular,    // symbolic link or directory under a range name (content, if any, not the certified one)
+}
+
+/// the property's view of the directory: which names offend (independent of the code under test)
+fn offenders(imm: &Path, bounds: (u64, u64), honest: &BTreeMap<String, String>) -> Vec<(String, Off)> {
+    let (lo, hi) = bounds;
+    let mut out = vec![];
+    let mut range_names = BTreeSet::new();
+    for n in lo..=hi {
+        for e in 0..3 {
+            let nm = trio_name(n, e);
+            range_names.insert(nm.clone());
+            let p = imm.join(&nm);
+            let lmd = std::fs::symlink_metadata(&p);
+            match std::fs::read(&p) {
+                Err(_) => {
+                    if lmd.is_ok() && p.exists() {
+                        out.push((nm, Off::NonRegular)); // a directory (or something unreadable) under the name
+                    } else {
+                        out.push((nm, Off::Missing)); // nothing there (a dangling link is nothing)
+                    }
+                }
+                Ok(c) => {
+                    let regular = lmd.map(|m| m.is_file()).unwrap_or(false);
+                    let good = honest.get(&nm).map(|d| *d == sha256_hex(&c)).unwrap_or(false);
+                    if !good {
+                        out.push((nm, if regular { Off::Tampered } else { Off::NonRegular }));
+                    }
+                }
+            }
+        }
+    }
+    if let Ok(rd) = std::fs::read_dir(imm) {
+        for e in rd.flatten() {
+            let nm = e.file_name().to_string_lossy().to_string();
+            if range_names.contains(&nm) {
+                continue;
+            }
+            let p = e.path();
+            let regular = std::fs::symlink_metadata(&p).map(|m| m.is_file()).unwrap_or(false);
+            let ext_ok = p.extension().map(|x| EXTS.contains(&x.to_string_lossy().as_ref())).unwrap_or(false);
+            let num = p.file_stem().and_then(|s| s.to_str()).and_then(|s| s.parse::<u64>().ok());
+            if regular && ext_ok {
+                if let Some(k) = num {
+                    if lo <= k && k <= hi {
+                        out.push((nm, Off::Foreign));
+                    }
+                }
+            }
+        }
+    }
+    out
+}
+
+struct Ctx {
+    rt: tokio::runtime::Runtime,
+    client: mithril_client::Client,
+    scratch: Scratch,
+    logger: slog::Logger,
+}
+
+fn certificate_for(root_hex: &str, consistent: bool) -> MithrilCertificate {
+    let mut pm = ProtocolMessage::new();
+    pm.set_message_part(ProtocolMessagePartKey::CardanoDatabaseMerkleRoot, root_hex.to_string());
+    let signed = if consistent { pm.compute_hash() } else { sha256_hex(b"another signed message") };
+    MithrilCertificate { protocol_message: pm, signed_message: signed, ..MithrilCertificate::dummy() }
+}
+
+fn snapshot_for(beacon: u64, digests_uri: Option<String>) -> CardanoDatabaseSnapshot {
+    let mut s = CardanoDatabaseSnapshot::dummy();
+    s.beacon = CardanoDbBeacon { epoch: Epoch(123), immutable_file_number: beacon };
+    if let Some(uri) = digests_uri {
+        s.digests = DigestsMessagePart {
+            size_uncompressed: 1024,
+            locations: vec![DigestLocation::CloudStorage { uri, compression_algorithm: None }],
+        };
+    }
+    s
+}
+
+fn tree_of(values: &[String]) -> MKTree<MKTreeStoreInMemory> {
+    MKTree::new(values).unwrap()
+}
+
+/// run the real verifier and canonicalise its answer
+fn real_verify(ctx: &Ctx, cert: &MithrilCertificate, snap: &CardanoDatabaseSnapshot, range: &R, allow: bool, db_dir: &Path, vd: &VerifiedDigests) -> Verdict {
+    let dbc = ctx.client.cardano_database_v2();
+    let r = ctx.rt.block_on(dbc.verify_cardano_database(cert, snap, &range.real(), allow, db_dir, vd));
+    match r {
+        Ok(proof) => {
+            // the returned proof must be one the certificate can be matched with (root test of the caller)
+            let _ = proof;
+            Verdict::Accepted
+        }
+        Err(CardanoDatabaseVerificationError::ImmutableFilesVerification(l)) => Verdict::Rejected {
+            missing: l.missing.clone(),
+            tampered: l.tampered.clone(),
+            nonver: l.non_verifiable.clone(),
+        },
+        Err(CardanoDatabaseVerificationError::DigestsComputation(_)) => Verdict::Err("digester"),
+        Err(CardanoDatabaseVerificationError::MerkleProofVerification(_)) => Verdict::Err("proof"),
+        Err(CardanoDatabaseVerificationError::ImmutableFilesRangeCreation(_)) => Verdict::Err("range"),
+    }
+}
+
+/// S on one verification; returns (class, what) failures
+#[allow(clippy::too_many_arguments)]
+fn spec_verify(
+    v: &Verdict,
+    db: &Db,
+    range: &R,
+    allow: bool,
+    honest: &BTreeMap<String, String>,
+    used: &BTreeMap<String, String>,
+) -> Vec<(String, String)> {
+    let mut fails = vec![];
+    let bounds = match range.bounds(db.beacon) {
+        Some(b) => b,
+        None => {
+            if matches!(v, Verdict::Accepted) {
+                fails.push(("accepted-invalid-range".to_string(), format!("range {:?} is not a range of a database ending at {}", range, db.beacon)));
+            }
+            return fails;
+        }
+    };
+    let offs: Vec<(String, Off)> = offenders(&db.imm, bounds, honest)
+        .into_iter()
+        .filter(|(_, o)| !(allow && *o == Off::Missing))
+        .collect();
+    // class of an offence: narrow predicates for the recorded findings, anything else is new
+    let class_of = |name: &String, o: Off| -> String {
+        match o {
+            Off::NonRegular => "non-regular-entry-skipped".to_string(),
+            Off::Tampered => {
+                // the digest list that was USED (served by the mirror and accepted against the signed
+                // root) assigns this content to this name, the honest list does not
+                let actual = std::fs::read(db.imm.join(name)).map(|c| sha256_hex(&c)).unwrap_or_default();
+                if used.get(name) == Some(&actual) && honest.get(name) != Some(&actual) {
+                    "digest-names-unbound".to_string()
+                } else {
+                    "accepted-or-unreported-tampered".to_string()
+                }
+            }
+            Off::Missing => "accepted-or-unreported-missing".to_string(),
+            Off::Foreign => "accepted-or-unreported-foreign".to_string(),
+        }
+    };
+    match v {
+        Verdict::Accepted => {
+            for (n, o) in &offs {
+                fails.push((class_of(n, *o), format!("accepted although {} is {:?} (range {:?}, beacon {}, allow_missing {})", n, o, range, db.beacon, allow)));
+            }
+        }
+        Verdict::Rejected { missing, tampered, nonver } => {
+            for (n, o) in &offs {
+                let reported = match o {
+                    Off::Missing => missing.contains(n),
+                    Off::Tampered | Off::Foreign => tampered.contains(n) || nonver.contains(n),
+                    Off::NonRegular => missing.contains(n) || tampered.contains(n) || nonver.contains(n),
+                };
+                if !reported {
+                    fails.push((class_of(n, *o), format!("rejected, but the offending name {} ({:?}) is in none of the reported lists", n, o)));
+                }
+            }
+        }
+        Verdict::Err(_) => {}
+    }
+    fails
+}
+
+fn pick_number(rng: &mut Rng, db: &Db, bounds: Option<(u64, u64)>) -> u64 {
+    let (lo, hi) = bounds.unwrap_or((0, db.beacon));
+    let mut cands = vec![lo, hi, lo.saturating_sub(1), hi + 1, lo + 1, hi.saturating_sub(1), db.beacon, db.beacon + 1, 0, db.top];
+    cands.retain(|n| *n <= db.top);
+    if rng.chance(1, 3) {
+        rng.range(0, db.top)
+    } else {
+        *rng.pick(&cands)
+    }
+}
+
+fn gen_tamper(rng: &mut Rng, db: &Db, bounds: Option<(u64, u64)>) -> Tamper {
+    let mut name = |rng: &mut Rng| trio_name(pick_number(rng, db, bounds), rng.below(3) as usize);
+    match rng.below(20) {
+        0 | 1 => Tamper::Flip(name(rng)),
+        2 => Tamper::Truncate(name(rng)),
+        3 => Tamper::Extend(name(rng)),
+        4 => Tamper::Empty(name(rng)),
+        5 | 6 => Tamper::Delete(name(rng)),
+        7..=9 => {
+            let a = name(rng);
+            let b = name(rng);
+            Tamper::Swap(a, b)
+        }
+        10 | 11 => {
+            let a = name(rng);
+            let b = name(rng);
+            Tamper::CopyOver(a, b)
+        }
+        12..=14 => {
+            let n = pick_number(rng, db, bounds);
+            let e = EXTS[rng.below(3) as usize];
+            let nm = match rng.below(9) {
+                0 => format!("{}.{}", n, e),          // no padding
+                1 => format!("{:06}.{}", n, e),       // other padding
+                2 => format!("+{}.{}", n, e),         // parses as the same number
+                3 => format!("{:05}.tmp", n),         // other extension: ignored
+                4 => "lock".to_string(),
+                5 => format!("{:05}.{}.bak", n, e),
+                6 => format!("{:05}.{}", db.top + 1 + rng.below(3), e), // beyond everything
+                7 => format!("{:05}", n),             // no extension
+                _ => format!("{:03}.{}", n, e),
+            };
+            let src = if rng.bool() { Some(name(rng)) } else { None };
+            Tamper::Extra(nm, src)
+        }
+        15 => Tamper::Extra(format!("{}.{}", rng.pick(&["abc", "0x1", "1e3", "-1", "١"]), EXTS[rng.below(3) as usize]), None),
+        16 => Tamper::DirAt(name(rng)),
+        17 | 18 => {
+            let n = name(rng);
+            let t = match rng.below(4) {
+                0 => name(rng),                                 // another file of the directory
+                1 => "../evil.bin".to_string(),                 // a file outside `immutable/`
+                2 => "nowhere".to_string(),                     // dangling
+                _ => format!("../{}", "immutable"),             // a directory
+            };
+            Tamper::LinkAt(n, t)
+        }
+        _ => Tamper::NoImmutableDir,
+    }
+}
+
+fn gen_range(rng: &mut Rng, beacon: u64) -> R {
+    let b = beacon;
+    match rng.below(16) {
+        0..=2 => R::Full,
+        3 => R::From(0),
+        4 => R::From(b),
+        5 => R::From(rng.range(0, b)),
+        6 => R::From(b + 1), // invalid
+        7 => R::UpTo(b),
+        8 => R::UpTo(0),
+        9 => R::UpTo(rng.range(0, b)),
+        10 => R::UpTo(b + 1), // invalid
+        11 | 12 => {
+            let a = rng.range(0, b);
+            R::Range(a, rng.range(a, b))
+        }
+        13 => {
+            let a = rng.range(0, b);
+            R::Range(a, a)
+        }
+        14 => R::Range(rng.range(0, b), b + 1), // invalid
+        _ => {
+            let a = rng.range(0, b);
+            if a == 0 { R::Range(0, b) } else { R::Range(a, a - 1) } // inverted: invalid
+        }
+    }
+}
+
+/// one direct case: VerifiedDigests built from the honest list, directory tampered
+#[allow(clippy::too_many_arguments)]
+fn direct_case(ctx: &Ctx, sink: &mut Sink, rng: &mut Rng, tag: &str, trios: u64, beacon: u64, extra: bool, range: R, allow: bool, tampers: Option<Vec<Tamper>>, ntamper: usize) -> Option<(Verdict, Vec<(String, String)>)> {
+    if !sink.wanted() {
+        sink.skip();
+        return None;
+    }
+    let idx = sink.next_index();
+    let db = build_db(rng, &ctx.scratch, idx, trios, beacon, extra);
+    std::fs::write(db.db_dir.join("evil.bin"), b"HOSTILE CHUNK").unwrap();
+    let honest = db.honest_certified();
+    // the aggregator's side: the real digester over the honest database
+    let digester = CardanoImmutableDigester::new(None, ctx.logger.clone());
+    let agg_tree = ctx
+        .rt
+        .block_on(digester.compute_merkle_tree(&db.db_dir, &CardanoDbBeacon { epoch: Epoch(123), immutable_file_number: beacon }))
+        .unwrap();
+    let agg_root = agg_tree.compute_root().unwrap().to_hex();
+    let values: Vec<String> = honest.values().cloned().collect();
+    let vd = VerifiedDigests { digests: honest.clone(), merkle_tree: tree_of(&values) };
+    let mut extra_fail = vec![];
+    if vd.merkle_tree.compute_root().unwrap().to_hex() != agg_root {
+        extra_fail.push(("client-aggregator-order".to_string(), "tree over the list in name order differs from the aggregator's tree".to_string()));
+    }
+    let cert = certificate_for(&agg_root, true);
+    let snap = snapshot_for(beacon, None);
+    let bounds = range.bounds(beacon);
+    let tampers = tampers.unwrap_or_else(|| (0..ntamper).map(|_| gen_tamper(rng, &db, bounds)).collect());
+    for t in &tampers {
+        apply(t, &db, rng);
+    }
+    let mut ids = Ids::default();
+    let cert_s = format!("[{}]", honest.iter().map(|(n, d)| format!("(@{},{})", n, ids.id(d))).collect::<Vec<_>>().join(","));
+    let dir_s = observe_dir(&db.imm, &mut ids);
+    let v = real_verify(ctx, &cert, &snap, &range, allow, &db.db_dir, &vd);
+    let req = format!("c10.verify cert={} dir={} range={} last={} allow={}", cert_s, dir_s, range.show(), beacon, allow as u8);
+    let i = sink.case(tag, &req, &v.show());
+    let mut fails = spec_verify(&v, &db, &range, allow, &honest, &honest);
+    fails.extend(extra_fail);
+    let case = format!("{} tampers={:?}", req, tampers);
+    for (c, w) in &fails {
+        sink.sfail(i, c, w, &case);
+    }
+    db.cleanup();
+    Some((v, fails))
+}
+
+#[derive(Clone, Debug)]
+enum ListTamper {
+    Shuffle,
+    Rename(String, String),
+    Drop(String),
+    Add(String, Option<String>), // digest: random or that of the named entry
+    ChangeDigest(String),
+    SwapDigests(String, String),
+    Duplicate(String, bool), // a second entry for the name with another digest, after (true) or before the original
+    /// insert a name just before `from` and drop `dropped`: every name in between moves to the next digest
+    Shift { fake: String, from: String, dropped: String },
+    CertInconsistent,
+    OtherRoot,
+}
+
+/// pipeline case: served list (possibly tampered) through the real `download_and_verify_digests`,
+/// then, if accepted, the directory (possibly arranged to match the served list) through `verify_cardano_database`
+#[allow(clippy::too_many_arguments)]
+fn pipeline_case(ctx: &Ctx, sink: &mut Sink, rng: &mut Rng, tag: &str, trios: u64, beacon: u64, lt: Vec<ListTamper>, range: R, allow: bool, follow_list: bool, ntamper: usize) -> Option<Vec<(String, String)>> {
+    if !sink.wanted() {
+        sink.skip();
+        return None;
+    }
+    let idx = sink.next_index();
+    let db = build_db(rng, &ctx.scratch, idx, trios, beacon, false);
+    let honest = db.honest_certified();
+    let digester = CardanoImmutableDigester::new(None, ctx.logger.clone());
+    let agg_tree = ctx
+        .rt
+        .block_on(digester.compute_merkle_tree(&db.db_dir, &CardanoDbBeacon { epoch: Epoch(123), immutable_file_number: beacon }))
+        .unwrap();
+    // the leaves the aggregator signed, in its order ((number, path)); `MKTree::leaves()` cannot be used:
+    // it collapses equal digests
+    let mut signed_leaves: Vec<String> = vec![];
+    for n in 0..=beacon {
+        for e in 0..3 {
+            signed_leaves.push(honest[&trio_name(n, e)].clone());
+        }
+    }
+    let mut root = agg_tree.compute_root().unwrap().to_hex();
+    let order_ok = tree_of(&signed_leaves).compute_root().unwrap().to_hex() == root;
+    let mut cert_ok = true;
+    // the served list: everything the aggregator knows (also beyond the beacon)
+    let mut served: Vec<(String, String)> = db.honest_all.iter().map(|(a, b)| (a.clone(), b.clone())).collect();
+    for t in &lt {
+        match t {
+            ListTamper::Shuffle => rng.shuffle(&mut served),
+            ListTamper::Rename(a, b) => {
+                for e in served.iter_mut() {
+                    if e.0 == *a {
+                        e.0 = b.clone();
+                    }
+                }
+            }
+            ListTamper::Drop(a) => served.retain(|e| e.0 != *a),
+            ListTamper::Add(n, src) => {
+                let d = match src {
+                    Some(s) => served.iter().find(|e| e.0 == *s).map(|e| e.1.clone()).unwrap_or_else(|| sha256_hex(b"x")),
+                    None => sha256_hex(&rng.bytes(8)),
+                };
+                let at = rng.below(served.len() as u64 + 1) as usize;
+                served.insert(at, (n.clone(), d));
+            }
+            ListTamper::ChangeDigest(a) => {
+                for e in served.iter_mut() {
+                    if e.0 == *a {
+                        e.1 = sha256_hex(e.1.as_bytes());
+                    }
+                }
+            }
+            ListTamper::SwapDigests(a, b) => {
+                let da = served.iter().find(|e| e.0 == *a).map(|e| e.1.clone());
+                let dbb = served.iter().find(|e| e.0 == *b).map(|e| e.1.clone());
+                if let (Some(da), Some(dbb)) = (da, dbb) {
+                    for e in served.iter_mut() {
+                        if e.0 == *a {
+                            e.1 = dbb.clone();
+                        } else if e.0 == *b {
+                            e.1 = da.clone();
+                        }
+                    }
+                }
+            }
+            ListTamper::Duplicate(a, after) => {
+                if let Some(pos) = served.iter().position(|e| e.0 == *a) {
+                    let other = (a.clone(), sha256_hex(b"other"));
+                    if *after {
+                        served.push(other);
+                    } else {
+                        let orig = served.remove(pos);
+                        served.insert(0, other);
+                        served.push(orig);
+                    }
+                }
+            }
+            ListTamper::Shift { fake, from, dropped } => {
+                // names sorted; digests of [from ..= dropped] move one name down
+                served.sort();
+                let i0 = served.iter().position(|e| e.0 == *from);
+                let i1 = served.iter().position(|e| e.0 == *dropped);
+                if let (Some(i0), Some(i1)) = (i0, i1) {
+                    if i0 <= i1 {
+                        let digs: Vec<String> = served[i0..=i1].iter().map(|e| e.1.clone()).collect();
+                        let mut names: Vec<String> = vec![fake.clone()];
+                        names.extend(served[i0..i1].iter().map(|e| e.0.clone()));
+                        let repl: Vec<(String, String)> = names.into_iter().zip(digs).collect();
+                        served.splice(i0..=i1, repl);
+                    }
+                }
+            }
+            ListTamper::CertInconsistent => cert_ok = false,
+            ListTamper::OtherRoot => {
+                let mut v = signed_leaves.clone();
+                v.reverse();
+                v.push(sha256_hex(b"one more"));
+                root = tree_of(&v).compute_root().unwrap().to_hex();
+            }
+        }
+    }
+    let other_root = lt.iter().any(|t| matches!(t, ListTamper::OtherRoot));
+    for (n, _) in &served {
+        assert!(name_ok(n), "{}", n);
+    }
+    let list_path = db.case_dir.join("digests.json");
+    let msg: Vec<CardanoDatabaseDigestListItemMessage> = served
+        .iter()
+        .map(|(n, d)| CardanoDatabaseDigestListItemMessage { immutable_file_name: n.clone(), digest: d.clone() })
+        .collect();
+    std::fs::write(&list_path, serde_json::to_vec(&msg).unwrap()).unwrap();
+    let cert = certificate_for(&root, cert_ok);
+    let snap = snapshot_for(beacon, Some(format!("file://{}", list_path.display())));
+    let dbc = ctx.client.cardano_database_v2();
+    let r = ctx.rt.block_on(dbc.download_and_verify_digests(&cert, &snap));
+    let mut ids = Ids::default();
+    let served_s = format!("[{}]", served.iter().map(|(n, d)| format!("(@{},{})", n, ids.id(d))).collect::<Vec<_>>().join(","));
+    // when the certificate signs another root the model is given that other leaf list: nothing served matches it
+    let signed_s = if other_root {
+        "[other]".to_string()
+    } else {
+        format!("[{}]", signed_leaves.iter().map(|d| ids.id(d)).collect::<Vec<_>>().join(","))
+    };
+    let head = format!("served={} last={} signed={} certok={}", served_s, beacon, signed_s, cert_ok as u8);
+    let mut fails: Vec<(String, String)> = vec![];
+    let (req, imp, case) = match r {
+        Err(_) => (format!("c10.digests {}", head), "err".to_string(), format!("{} list_tampers={:?}", head, lt)),
+        Ok(vd) => {
+            let imp1 = format!("ok [{}]", vd.digests.iter().map(|(n, d)| format!("(@{},{})", n, ids.id(d))).collect::<Vec<_>>().join(","));
+            // S: an accepted list reproduces the signed root: its digests, in order, are the signed leaves,
+            // and it binds every name to the digest the aggregator signed for it
+            let vals: Vec<String> = vd.digests.values().cloned().collect();
+            if other_root || !cert_ok || vals != signed_leaves {
+                fails.push(("digest-list-accepted-against-other-root".into(), "accepted list does not reproduce the signed leaf list".into()));
+            }
+            if vd.digests != honest {
+                fails.push(("digest-names-unbound".into(), format!("the accepted list assigns digests to other names than the signed database does (first differing name: {:?})",
+                    vd.digests.iter().zip(honest.iter()).find(|(a, b)| a != b).map(|(a, _)| a.0.clone()))));
+            }
+            // the directory: honest, or arranged by the mirror to match the list it served
+            if follow_list {
+                let contents: BTreeMap<String, Vec<u8>> = db
+                    .honest_all
+                    .keys()
+                    .filter_map(|n| std::fs::read(db.imm.join(n)).ok().map(|c| (sha256_hex(&c), c)))
+                    .collect();
+                for (n, d) in &vd.digests {
+                    if let (true, Some(c)) = (db.imm.join(n).is_file(), contents.get(d)) {
+                        std::fs::write(db.imm.join(n), c).unwrap();
+                    }
+                }
+            }
+            let bounds = range.bounds(beacon);
+            let tampers: Vec<Tamper> = (0..ntamper).map(|_| gen_tamper(rng, &db, bounds)).collect();
+            for t in &tampers {
+                apply(t, &db, rng);
+            }
+            let dir_s = observe_dir(&db.imm, &mut ids);
+            let v = real_verify(ctx, &cert, &snap, &range, allow, &db.db_dir, &vd);
+            fails.extend(spec_verify(&v, &db, &range, allow, &honest, &vd.digests));
+            (
+                format!("c10.pipeline {} dir={} range={} allow={}", head, dir_s, range.show(), allow as u8),
+                format!("{} | {}", imp1, v.show()),
+                format!("{} dir={} range={} allow={} list_tampers={:?} tampers={:?}", head, dir_s, range.show(), allow as u8, lt, tampers),
+            )
+        }
+    };
+    if !order_ok {
+        fails.push(("client-aggregator-order".to_string(), "the aggregator's tree is not the tree over the digests in (number, extension) order".to_string()));
+    }
+    let i = sink.case(tag, &req, &imp);
+    for (c, w) in &fails {
+        sink.sfail(i, c, w, &case);
+    }
+    db.cleanup();
+    Some(fails)
+}
+
+fn gen_list_tamper(rng: &mut Rng, trios: u64, beacon: u64) -> ListTamper {
+    let top = trios - 1;
+    let any = |rng: &mut Rng| trio_name(rng.range(0, top), rng.below(3) as usize);
+    let certified = |rng: &mut Rng| {
+        let r = rng.range(0, beacon);
+        trio_name(*rng.pick(&[0, beacon, r]), rng.below(3) as usize)
+    };
+    match rng.below(14) {
+        0 => ListTamper::Shuffle,
+        1 => {
+            let a = certified(rng);
+            let n: u64 = a[..5].parse().unwrap();
+            let e = &a[6..];
+            let b = match rng.below(5) {
+                0 => format!("{}.{}", n, e),
+                1 => format!("{:06}.{}", n, e),
+                2 => format!("{:05}.{}x", n, e),
+                3 => format!("{:05}.{}", top + 5, e),
+                _ => format!("x{:05}.{}", n, e),
+            };
+            ListTamper::Rename(a, b)
+        }
+        2 => ListTamper::Drop(certified(rng)),
+        3 => ListTamper::Drop(any(rng)),
+        4 => ListTamper::Add(format!("{:05}.chunk", top + 1 + rng.below(4)), None), // beyond the beacon: filtered
+        5 => ListTamper::Add(format!("{}.ledger", rng.pick(&["abc", "state", "1e3"])), None), // no number: filtered
+        6 => ListTamper::Add(format!("{:05}.extra", rng.range(0, beacon)), None), // counted: another root
+        7 => ListTamper::Add(format!("dir/{:05}.chunk", rng.range(0, beacon)), Some(certified(rng))),
+        8 => ListTamper::ChangeDigest(certified(rng)),
+        9 => {
+            let a = certified(rng);
+            let b = certified(rng);
+            ListTamper::SwapDigests(a, b)
+        }
+        10 => ListTamper::Duplicate(certified(rng), rng.bool()),
+        11 => ListTamper::CertInconsistent,
+        12 => ListTamper::OtherRoot,
+        _ => ListTamper::ChangeDigest(any(rng)),
+    }
+}
+
+fn main() {
+    let args = Args::parse();
+    let mut sink = Sink::new(&args);
+    let mut rng = Rng::new(args.seed ^ 0xC10);
+    hutil::quiet_panics();
+    let scratch = Scratch::new("verif-c10");
+    let rt = tokio::runtime::Builder::new_multi_thread().worker_threads(2).enable_all().build().unwrap();
+    let client = ClientBuilder::aggregator("http://127.0.0.1:9/", fake_keys::genesis_verification_key()[0]).build().unwrap();
+    let logger = slog::Logger::root(slog::Discard, slog::o!());
+    let ctx = Ctx { rt, client, scratch, logger };
+
+    // ---- corpus: witnesses of the repaired defects and of the recorded findings, replayed first ----
+    // (a) contents of two certified names exchanged; (b) one certified content copied over another
+    let w = direct_case(&ctx, &mut sink, &mut rng, "corpus.swap", 3, 2, false, R::From(1), false,
+        Some(vec![Tamper::Swap("00001.chunk".into(), "00002.chunk".into())]), 0);
+    if let Some((v, _)) = w {
+        let rep = matches!(v, Verdict::Accepted);
+        sink.witness("C10-content-swap", rep, &format!("contents of 00001.chunk and 00002.chunk exchanged, From(1): {}", v.show()));
+    }
+    let w = direct_case(&ctx, &mut sink, &mut rng, "corpus.copy", 3, 2, false, R::Full, false,
+        Some(vec![Tamper::CopyOver("00000.primary".into(), "00002.primary".into())]), 0);
+    if let Some((v, _)) = w {
+        let rep = matches!(v, Verdict::Accepted);
+        sink.witness("C10-content-copy", rep, &format!("content of 00000.primary written over 00002.primary, Full: {}", v.show()));
+    }
+    let w = direct_case(&ctx, &mut sink, &mut rng, "corpus.padding", 3, 2, false, R::Full, false,
+        Some(vec![Tamper::Extra("1.chunk".into(), Some("00002.chunk".into()))]), 0);
+    if let Some((v, _)) = w {
+        let rep = matches!(v, Verdict::Accepted);
+        sink.witness("C10-foreign-name", rep, &format!("extra file 1.chunk holding the content of 00002.chunk, Full: {}", v.show()));
+    }
+    // a symbolic link under a certified name is skipped by the digester and counts as present
+    let w = direct_case(&ctx, &mut sink, &mut rng, "corpus.symlink", 3, 2, false, R::Full, false,
+        Some(vec![Tamper::LinkAt("00001.chunk".into(), "../evil.bin".into())]), 0);
+    if let Some((v, f)) = w {
+        let rep = matches!(v, Verdict::Accepted) && f.iter().any(|(c, _)| c == "non-regular-entry-skipped");
+        sink.witness("C10-symlink-skipped", rep, &format!("immutable/00001.chunk replaced by a symbolic link to ../evil.bin, Full, allow_missing=false: {}", v.show()));
+    }
+    let w = direct_case(&ctx, &mut sink, &mut rng, "corpus.dir", 3, 2, false, R::Full, false,
+        Some(vec![Tamper::DirAt("00001.primary".into())]), 0);
+    if let Some((v, f)) = w {
+        let rep = matches!(v, Verdict::Accepted) && f.iter().any(|(c, _)| c == "non-regular-entry-skipped");
+        sink.witness("C10-directory-skipped", rep, &format!("immutable/00001.primary replaced by a directory, Full, allow_missing=false: {}", v.show()));
+    }
+    // the signed root binds the ordered digests, not the names: insert a name, drop the last one
+    let w = pipeline_case(&ctx, &mut sink, &mut rng, "corpus.shift", 4, 3,
+        vec![ListTamper::Shift { fake: "00001.chun".into(), from: "00001.chunk".into(), dropped: "00003.secondary".into() }],
+        R::Range(1, 2), false, true, 0);
+    if let Some(f) = w {
+        let rep = f.iter().any(|(c, w)| c == "digest-names-unbound" && w.starts_with("accepted although"));
+        sink.witness("C10-digest-names-unbound", rep, "served list with `00001.chun` inserted and `00003.secondary` dropped (every name from 00001.chunk on carries the digest of its successor), directory arranged accordingly, Range(1,2): list accepted against the signed root and database accepted");
+    }
+
+    // ---- generated cases ----
+    let n_direct = if args.thorough() { 4000 } else { 430 };
+    let n_pipe = if args.thorough() { 1500 } else { 170 };
+    for k in 0..n_direct {
+        let trios = match k % 10 {
+            0 => 1,
+            1 => 2,
+            2 => 30,
+            _ => rng.range(1, 30),
+        };
+        let extra = rng.chance(1, 4);
+        let beacon = if rng.chance(2, 3) { trios - 1 } else { rng.range(0, trios - 1) };
+        let range = gen_range(&mut rng, beacon);
+        let allow = rng.chance(1, 3);
+        let nt = match rng.below(8) {
+            0 | 1 => 0,
+            2..=5 => 1,
+            6 => 2,
+            _ => 3,
+        };
+        let tag = if nt == 0 { "honest" } else { "tampered" };
+        direct_case(&ctx, &mut sink, &mut rng, tag, trios, beacon, extra, range, allow, None, nt);
+    }
+    for k in 0..n_pipe {
+        let trios = if k % 7 == 0 { 30 } else { rng.range(1, 12) };
+        let beacon = if rng.chance(1, 2) { trios - 1 } else { rng.range(0, trios - 1) };
+        let nl = match rng.below(6) {
+            0 => 0,
+            1..=3 => 1,
+            _ => 2,
+        };
+        let mut lt: Vec<ListTamper> = (0..nl).map(|_| gen_list_tamper(&mut rng, trios, beacon)).collect();
+        let mut follow = false;
+        if rng.chance(1, 6) && beacon >= 1 {
+            // the shift attack with a random window
+            let names: Vec<String> = (0..=beacon).flat_map(|n| (0..3).map(move |e| trio_name(n, e))).collect();
+            let i0 = rng.below(names.len() as u64 - 1) as usize;
+            let i1 = rng.range(i0 as u64, names.len() as u64 - 1) as usize;
+            let from = names[i0].clone();
+            let fake = from[..from.len() - 1].to_string(); // a proper prefix sorts just before
+            lt = vec![ListTamper::Shift { fake, from, dropped: names[i1].clone() }];
+            follow = rng.chance(3, 4);
+        }
+        let range = gen_range(&mut rng, beacon);
+        let allow = rng.chance(1, 3);
+        let nt = if rng.chance(1, 3) { 1 } else { 0 };
+        let tag = if lt.is_empty() { "pipeline.honest" } else { "pipeline.tampered" };
+        pipeline_case(&ctx, &mut sink, &mut rng, tag, trios, beacon, lt, range, allow, follow, nt);
+    }
+    sink.note("numbers", "immutable numbers stay below 100000: client (name order) and aggregator ((number, path) order) agree there");
+    let Ctx { scratch, .. } = ctx;
+    drop(scratch);
+    sink.finish();
+}
